@@ -160,9 +160,15 @@ def rule_b(ctx):
          'recovery appends to the population and applies population_update exactly as _feedback does',
          ev.loc, 'population recovery diverged from _feedback')
   sw = idx.func('pyglove.core.geno.sweeping.Sweeping._replay')
-  ok = any(isinstance(n, ast.Assign) and A.unparse(n.targets[0]) == 'self._last_proposed_dna'
-           and A.unparse(n.value) == 'dna' for n in ast.walk(sw.node))
-  ctx.ob('C15.b', sw.fq, ok, 'Sweeping replay restores the last proposed DNA', sw.loc,
+  gsw = C.cfg_of(sw.node)
+  dparam = [p for p in A.param_names(sw.node) if p not in ('self', 'trial_id', 'reward')]
+  st = [k for k in gsw.nodes if k.kind == 'stmt' and isinstance(k.ast, ast.Assign)
+        and A.unparse(k.ast.targets[0]) == 'self._last_proposed_dna'
+        and isinstance(k.ast.value, ast.Name) and k.ast.value.id in dparam]
+  # every replayed proposal advances the cursor, rewarded or still in flight
+  ok = bool(st) and gsw.can_skip(gsw.entry, lambda n: n in st) is None
+  ctx.ob('C15.b', sw.fq, ok, 'Sweeping replay restores the last proposed DNA (for every replayed proposal, '
+         'including those whose reward never arrived)', sw.loc,
          '_last_proposed_dna is not restored from the replayed DNA')
   rd = idx.func('pyglove.core.geno.random.Random._replay')
   ok = any(A.call_name(c) == 'random_dna' and len(c.args) >= 2 and A.unparse(c.args[1]) == 'self._random'
